@@ -258,13 +258,8 @@ func execC08(c *vf.Ctx, d *vf.Driver, cs c08Case) {
 		label = fmt.Sprintf("rsa/%dbit-e%d-%dprimes", c08hex(m.N).BitLen(), m.E, len(m.P))
 	}
 	c.Count("type:" + label)
-	// every property failure of a key with more than two primes is the one multi-prime defect
-	pcls := func(cls string) string {
-		if len(m.P) > 2 {
-			return "c08-rsa-multiprime-roundtrip"
-		}
-		return cls
-	}
+	// (the multi-prime defects are repaired: failures of such keys are classified like any other)
+	pcls := func(cls string) string { return cls }
 	if m.Priv {
 		c.Count("private")
 	} else {
@@ -363,6 +358,35 @@ func execC08(c *vf.Ctx, d *vf.Driver, cs c08Case) {
 				return
 			}
 		}
+		// "oth": one element per prime after the second, each r/d/t the minimal-length encoding of the
+		// RFC 7518 §6.3.2.7 value — member by member, independently of the whole-object comparison
+		want := m.rsaOth()
+		if m.Priv {
+			c.Count(fmt.Sprintf("rsa-primes:%d", len(m.P)))
+		}
+		got, _ := goMap["oth"].([]any)
+		if len(got) != len(want) {
+			c08Fail(c, "property", "c08-rsa-oth-length", "\"oth\" does not have one element per prime after the second", cs,
+				fmt.Sprint(len(got)), fmt.Sprint(len(want)))
+			return
+		}
+		for i, w := range want {
+			el, _ := got[i].(map[string]any)
+			for j, name := range []string{"r", "d", "t"} {
+				str, _ := el[name].(string)
+				b, err := c08b64.DecodeString(str)
+				if err != nil || len(b) == 0 || b[0] == 0 || new(big.Int).SetBytes(b).Cmp(w[j]) != 0 {
+					c08Fail(c, "property", "c08-rsa-oth-member:"+name, fmt.Sprintf("oth[%d].%s is not the minimal-length encoding of the RFC 7518 §6.3.2.7 value", i, name),
+						cs, fmt.Sprintf("%x", b), fmt.Sprintf("%x", w[j].Bytes()))
+					return
+				}
+				c.Count(fmt.Sprintf("rsa-oth-bitlen-mod8:%s:%d", name, w[j].BitLen()%8))
+			}
+			if len(el) != 3 {
+				c08Fail(c, "property", "c08-rsa-oth-member:extra", fmt.Sprintf("oth[%d] has members other than r, d, t", i), cs, fmt.Sprint(el), "r, d, t")
+				return
+			}
+		}
 		c.Count("rsa-minimal-ok")
 	}
 	if len(p.X5c) > 1 {
@@ -402,9 +426,6 @@ func execC08(c *vf.Ctx, d *vf.Driver, cs c08Case) {
 			cls := "c08-roundtrip-rejected:" + label
 			if len(p.X5c) > 0 {
 				cls += "+x5c"
-			}
-			if len(m.P) > 2 {
-				cls = "c08-rsa-multiprime-roundtrip"
 			}
 			c08Fail(c, "property", cls, "ParseKey("+which+") rejects the JWK of a valid key", cs, goOut.String()+" "+fmt.Sprint(perr), "ok")
 			return
@@ -541,16 +562,25 @@ func c08SpecTie(c *vf.Ctx, d *vf.Driver, cs c08Case, rfc map[string]any) {
 				pre := w.Arr[5]
 				crt = vf.Arr(pre.Arr[0], pre.Arr[1], pre.Arr[2])
 			}
-			pr = vf.Arr(vf.BigInt(c08hex(m.D)), vf.BigInt(c08hex(m.P[0])), vf.BigInt(c08hex(m.P[1])), crt)
+			if len(m.P) > 2 && !m.Pre {
+				// more than two primes: the CRT members are mandatory (oth MUST be present)
+				mm := m
+				mm.Pre = true
+				pp, _, _ := mm.objects()
+				pre := c08PrivWire(pp).Arr[5]
+				crt = vf.Arr(pre.Arr[0], pre.Arr[1], pre.Arr[2])
+			}
+			oth := []vf.Wire{}
+			for _, w := range m.rsaOth() {
+				oth = append(oth, vf.Arr(vf.BigInt(w[0]), vf.BigInt(w[1]), vf.BigInt(w[2])))
+			}
+			pr = vf.Arr(vf.BigInt(c08hex(m.D)), vf.BigInt(c08hex(m.P[0])), vf.BigInt(c08hex(m.P[1])), crt, vf.Wire{Kind: vf.KArr, Arr: oth})
 		}
 		mat = vf.Arr(vf.Str("rsa"), vf.BigInt(c08hex(m.N)), vf.Int(int64(m.E)), pr)
 	case "okp":
 		mat = vf.Arr(vf.Str("okp"), vf.Str(m.Crv), vf.Bytes(m.Pub), on(m.Priv, vf.Bytes(m.Seed)))
 	case "oct":
 		mat = vf.Arr(vf.Str("oct"), vf.Bytes(m.K))
-	}
-	if len(m.P) > 2 {
-		return // the spec type has two primes (oth is outside the proved fragment)
 	}
 	var kvs []vf.KV
 	if p.Kid != "" {
@@ -618,6 +648,12 @@ func c08SpecTie(c *vf.Ctx, d *vf.Driver, cs c08Case, rfc map[string]any) {
 				a = append(a, conv(name, e))
 			}
 			return a
+		case vf.KObj:
+			o := map[string]any{}
+			for _, kv := range w.Obj {
+				o[kv.K] = conv(kv.K, kv.V)
+			}
+			return o
 		}
 		return w.ToJSON()
 	}
@@ -852,8 +888,7 @@ func runC08(c *vf.Ctx) {
 			}
 		}
 	}
-	mp := c08GenRSA(sr, 768, 65537, 3)
-	for _, m := range append(append([]c08Mat{}, c08RSAPool()...), mp) {
+	for _, m := range c08RSAPool() {
 		for _, pre := range []bool{false, true} {
 			mm := m
 			mm.Pre = pre
